@@ -275,4 +275,3 @@ var pkgDeps = map[string][]string{
 }
 
 func cmdReplay(args []string) int   { fmt.Println("replay: not implemented yet"); return 2 }
-func cmdSelftest(args []string) int { fmt.Println("selftest: not implemented yet"); return 2 }
